@@ -155,6 +155,13 @@ CHECKS['C07'] = dict(
           'Which variant is in force is read off the generated skeleton of SQLExecutor.finish_transaction on every run. '
           'Over the generated skeleton of Evolver.evolve: the version/evolution records are written only if no task '
           'execution failed, and a failing task makes the run raise — for every number of tasks and a fault in any call. '
+          'Model of _prepare_sql/_prepare_transaction_batches (Run/Batches.lean): for every list of statement groups the '
+          'batches keep every statement in order (C07_batches_keep_statements), every batch is executed with the '
+          'transaction flag of its own statements (C07_batch_flag_is_its_statements_flag), a NewTransactionSQL group starts '
+          'a batch, an evolution of ordinary statements is one transactional batch and hence atomic at every crash point '
+          '(C07_ordinary_evolution_is_atomic), also when a non-transactional statement follows '
+          '(C07_statements_before_no_transaction_group); which flag the source yields is read by the translator '
+          '(C07_source_batch_flag; counterexample C07_cex_next_batch_flag); correspondence `transaction_batches` on generated groups. '
           'On the real code a database error is injected at EVERY write-statement index of every generated run '
           '(rebuilds, index creation, model creation, deferred SQL, bookkeeping): snapshots, error payload, retry.'),
     design='§5 C07',
